@@ -5,7 +5,8 @@
     for each defect flag and for a moving oracle. *)
 From BX Require Import Base.Prelude Model.Mempool Model.MempoolSpec.
 From BX Require Import Proofs.MempoolLib Proofs.MempoolInv Proofs.MempoolInvOps Proofs.MempoolCommit
-  Proofs.MempoolGen Proofs.MempoolReach.
+  Proofs.MempoolGen Proofs.MempoolReach Proofs.MempoolEffects Proofs.MempoolTrace Proofs.MempoolTrace2
+  Proofs.MempoolDrain Proofs.MempoolTrace3.
 From Coq Require Import ZifyBool ZifyN ZifyNat.
 Local Open Scope N_scope.
 
@@ -181,6 +182,43 @@ Section Reach.
   Qed.
 End Reach.
 
+(* ------------------------------------------------------------------------- the trace predicates on all histories *)
+
+(** a history whose submissions are covered by the observation frame and which does not move the
+    ledger oracle *)
+Definition good_history (accts : list N) (univ : list tx) (ops : list op) : Prop :=
+  forallb static_op ops = true /\ (forall o, In o ops -> op_in_frame accts univ o).
+
+Definition model_fails p accts univ ops : list (N * N) :=
+  check_trace p accts univ (w0 accts univ) 0 (run cfg_fixed p accts univ empty_state ops).
+
+Theorem no_failure_code p accts univ ops : good_history accts univ ops -> model_fails p accts univ ops = [].
+Proof. intros [H1 H2]. apply all_histories_ok; assumption. Qed.
+
+Theorem code_never p accts univ ops c i : good_history accts univ ops -> ~ In (c, i) (model_fails p accts univ ops).
+Proof. intros H Hin. rewrite (no_failure_code p accts univ ops H) in Hin. destruct Hin. Qed.
+
+Theorem P_C18_all p accts univ ops : good_history accts univ ops ->
+  P p accts univ C18_codes (run cfg_fixed p accts univ empty_state ops).
+Proof. intros [H1 H2]. apply all_histories_P; assumption. Qed.
+
+Theorem P_C19_all p accts univ ops : good_history accts univ ops ->
+  P p accts univ C19_codes (run cfg_fixed p accts univ empty_state ops).
+Proof. intros [H1 H2]. apply all_histories_P; assumption. Qed.
+
+(** state-level liveness: within ceil(ready / batchSize) rounds of (GenerateBlock; commit of that
+    batch) every ready, unbatched transaction of a reachable state is handed out *)
+Theorem eventually_batched p accts univ s k : reachable p accts univ s ->
+  len (unb s (batched s)) <= N.of_nat k * batch_size p ->
+  forall a n t, item_at s (a, n) = Some t -> n < get_pn s a -> ~ In (a, n) (batched s) ->
+  exists b, In b (snd (drain cfg_fixed p k s)) /\ In t (snd b).
+Proof.
+  intros R Hm a n t Et Hn Hb. pose proof (reachable_Inv p accts univ s R) as I.
+  destruct (drain_live p k s I Hm (t_ts t) (a, n)) as [b [H1 H2]].
+  - apply unb_In. cbn [snd]. split; [|exact Hb]. apply (I_prio _ _ _ I). exists t. auto.
+  - exists b. split; [exact H1|]. unfold tx_at in H2. rewrite Et in H2. exact H2.
+Qed.
+
 (* ------------------------------------------------------------------------- refutations and examples *)
 
 Module Witness.
@@ -258,6 +296,11 @@ Proof. vm_compute. split; [tauto | reflexivity]. Qed.
     batches below the nonce the ledger reports *)
 Lemma stale_commit_cache_refuted : In (E_below_ledger, 4) (fails cfg_fixed h_ledger u_ledger).
 Proof. vm_compute. tauto. Qed.
+
+Lemma good_history_is_good : good_history accts u_good h_good.
+Proof.
+  split; [reflexivity|]. intros o Ho. repeat (destruct Ho as [<-|Ho]; [cbn; try exact Logic.I; intros t Ht; repeat (destruct Ht as [<-|Ht]; [vm_compute; tauto|]); destruct Ht|]). destruct Ho.
+Qed.
 
 Lemma good_history_example :
   fails cfg_fixed h_good u_good = [] /\
